@@ -97,6 +97,11 @@ theorem eval_strict_raw (te : C.TyEnv) (s : Store) (e : Expr) :
     obtain ⟨x, hx, h⟩ := bind_ok h
     obtain ⟨y, hy, h⟩ := bind_ok h
     rw [iha x hx, ok_bind, ihb y hy, ok_bind]; exact h
+  | toStr a iha =>
+    intro v h
+    rw [C.eval] at h ⊢
+    obtain ⟨x, hx, h⟩ := bind_ok h
+    rw [iha x hx, ok_bind]; exact h
 
 theorem declTemps_strict_raw : ∀ (ts : List Ty) (es : List Expr) (k : Nat) (te : C.TyEnv) (s s' : Store),
     C.declTemps te .strict k ts es s = .ok s' → C.declTemps te .raw k ts es s = .ok s'
